@@ -227,7 +227,18 @@ class AioServer:
                + "\r\n").encode("latin-1") + body
         s = socket.create_connection(("127.0.0.1", self.port), timeout=30)
         try:
-            s.sendall(req)
+            self._n = getattr(self, "_n", 0) + 1
+            if len(body) > 8 and self._n % 3 == 0:
+                # every third entity reaches the server in several pieces, as bodies do on a network
+                import time
+                s.setsockopt(socket.IPPROTO_TCP, socket.TCP_NODELAY, 1)
+                cut1 = len(req) - len(body) + len(body) // 3
+                cut2 = len(req) - len(body) + 2 * len(body) // 3
+                for part in (req[:cut1], req[cut1:cut2], req[cut2:]):
+                    s.sendall(part)
+                    time.sleep(0.004)
+            else:
+                s.sendall(req)
             data = b""
             while True:
                 chunk = s.recv(65536)
